@@ -7,7 +7,66 @@ use crate::rng::Rng;
 use crate::script::Seg;
 use crate::spec::{Decoded, End};
 
+/// "Sending returns as soon as the blank line ending the response head has arrived" holds for every response of
+/// the exchange: a redirect that is followed is decided by its head alone (status, Location), so the next hop is
+/// dialled without reading — let alone waiting for — the rest of the redirect's body (seed C19-seed8).
+fn redirect_stalls(sink: &mut Sink) {
+    use crate::send::{run_send, BodyR, FinalObs, ProxyCfg, SendCase};
+    let tails: [(&str, &[u8]); 6] = [
+        ("length-nothing-yet", b"Content-Length: 10\r\n\r\n"),
+        ("length-part", b"Content-Length: 10\r\n\r\nabc"),
+        ("chunked-inside-a-chunk", b"Transfer-Encoding: chunked\r\n\r\n5\r\nhe"),
+        ("chunked-no-last-chunk", b"Transfer-Encoding: chunked\r\n\r\n5\r\nhello\r\n"),
+        ("close-delimited", b"\r\nmoved"),
+        ("length-complete", b"Content-Length: 3\r\n\r\nabc"),
+    ];
+    for st in [301u16, 302, 303, 307, 308] {
+        for (name, tail) in tails.iter() {
+            for split in [false, true] {
+                let mut first = format!("HTTP/1.1 {} X\r\nLocation: /final\r\n", st).into_bytes();
+                first.extend_from_slice(tail);
+                // the head and what follows it in one piece, or the head first
+                let hop0: Vec<Seg> = if split {
+                    let p = first.windows(4).position(|w| w == b"\r\n\r\n").unwrap() + 4;
+                    let mut v = vec![Seg::Data(first[..p].to_vec())];
+                    if p < first.len() {
+                        v.push(Seg::Data(first[p..].to_vec()));
+                    }
+                    v.push(Seg::Pause);
+                    v
+                } else {
+                    vec![Seg::Data(first.clone()), Seg::Pause]
+                };
+                let case = SendCase {
+                    method: "GET".into(),
+                    url: "http://verif.test/start".into(),
+                    follow: true,
+                    max_redirections: 3,
+                    max_headers: 100,
+                    compress: false,
+                    proxy: ProxyCfg { http: None, https: None, no_proxy: vec![] },
+                    params: vec![],
+                    pre: vec![],
+                    body: BodyR::Empty,
+                    post: vec![],
+                    hops: vec![(hop0, Some(b"/final".to_vec())), (vec![Seg::Data(b"HTTP/1.1 200 OK\r\nContent-Length: 2\r\n\r\nok".to_vec())], None)],
+                    plain_tunnel: false,
+                };
+                let obs = run_send(&case);
+                let o = match &obs.fin {
+                    FinalObs::Blocked => Err((format!("send-blocked-on-redirect-{}", name), format!("send() waited on the connection of a {} whose head had arrived", st))),
+                    FinalObs::Ok(200, _) if obs.hops.len() == 2 && obs.hops[0].read_pauses == 0 => Ok(()),
+                    FinalObs::Ok(200, _) if obs.hops.len() == 2 => Err((format!("send-waited-on-redirect-{}", name), format!("the {} was followed, but send() had gone on reading its connection past the head until it would have had to wait for the peer ({} times)", st, obs.hops[0].read_pauses))),
+                    f => Err((format!("redirect-not-followed-{}", name), format!("a {} with Location and a body in progress: {} connections, final {:?}", st, obs.hops.len(), f))),
+                };
+                sink.push(Case { tags: vec!["framing=redirect-hop".into(), format!("pause={}", name), format!("seg={}", if split { "head-first" } else { "one" }), "nontrivial".into()], op: case.op_line(&obs), impl_line: obs.line(), oracle: o });
+            }
+        }
+    }
+}
+
 pub fn generate(seed: u64, tier: &str, sink: &mut Sink) {
+    redirect_stalls(sink);
     let mut rng = Rng::new(seed ^ 0xC19);
     let thorough = tier == "thorough";
     let n = if thorough { 8000 } else { 700 };
